@@ -68,6 +68,28 @@ Mutations of the real code tried (fresh copy of /repo, VERIF_REPO, ./check C08 -
       every generated file had ONE setting statement; with the statement histories of IntMode_MC: caught, 918 violations
       (`cpu 68000; relaxed on; intsyntax +0bbin`: 010 = 10 instead of 8, 10h "invalid symbol name").  The same mutation
       applied to the model (CodeList(new, other, FALSE)) violates IntMode_MC's invariant ListIsFunctionOfSettings.
+
+Extension: user-defined functions, SYMTYPE / DEFINED (checks/ext_userfunc.py, spec/UserFunc.tla + UserFunc_MC.tla; last phase).
+    Covers the FUNCTION statement and the call of user functions: function table as state across the passes, textual
+    parameter substitution as coded (CompressLine / ExpandLine, whole-identifier match on letters+digits, case-insensitive
+    unless -U), printing of the argument values and re-evaluation, against the declarative meaning "body tree with the
+    parameters standing for the argument values"; built-in functions hidden by user functions; -U; RADIX; forward use;
+    second definition; recursion (self, mutual, two calls); wrong argument counts; SYMTYPE / DEFINED over symbols of five
+    segments, a register symbol, undefined and forward symbols, function names.  Bounds: programs of <= 3 FUNCTION statements
+    with <= 2 parameters, bodies of depth <= 3; quick 63 program x option states / ~3.8 k cases (TLC prints both the
+    declarative and the as-coded result of each; 8051 sources, `dq`/`db` at ORG slots), thorough 8088 states / ~414 k cases.
+    Four mutations of the MODEL are refuted by TLC in every run (UserFunc_MC_dev_*.cfg); UserFunc_MC_fixed.cfg: with the
+    proposed repairs no exemption is needed.  Findings: C08-userfunc-argument-radix, C08-userfunc-string-argument-escape,
+    C08-userfunc-recursion-fanout (known_findings/C08.json, proposed_fixes/C08-userfunc-*.diff; with the three diffs applied
+    to a copy: 0 violations, 0 known findings, 0 drift, ctest 201/201).
+    Mutations of the real code tried against this phase (scratch copies, VERIF_REPO; all caught, none by another phase):
+    * asmsub.c IsValidParameterName always true (substring replacement)      -> 48 violations (`f function x,xy+x`: f(-3) an error)
+    * asmpars.c call branch: value pasted without "(" ")"                     -> 120 (`g function x,2-x`: g(-3) an error)
+    * asmpars.c call branch: surplus arguments not rejected                   -> 148 (g(1,2) = 1 instead of an error)
+    * asmallg.c CodeFUNCTION: CompressLine(..., True) (parameter case)        -> 40 (`f function x,X+1`)
+    * asmpars.c GetSymbolType: register symbols reported as 8                 -> 44 (symtype(myr) = 8, manual: 128)
+    * asmpars.c EnterFunction: "double defined" also in pass 2               -> 404 (every two-pass program rejected)
+    * asmpars.c FindFunction: a user function named ABS is not found         -> 53 (`Abs function x,x+10`: abs(-3) = 3)
 """
 import os
 import re
